@@ -272,13 +272,13 @@ def apply_edit(pkg: M.Package, rng: Rng, kind: str, only=None, only_steps=None):
             n, t, st = d.steps[i]
             d.steps[i] = (n, t.inner, st)
         return "make_required %s.%s" % (d.name, n)
-    if kind == "add_step":
+    if kind in ("add_step", "add_stream_step"):
         ps = _protocols(pkg)
         if not ps:
             return None
         p = rng.choice(ps)
         n = _fresh_member([s for s, _, _ in p.steps], rng)
-        shape = rng.choice(["stream", "vector", "optional"])
+        shape = "stream" if kind == "add_stream_step" else rng.choice(["stream", "vector", "optional"])
         base = Prim(rng.choice(NO_BOOL))
         if shape == "stream":
             p.steps.append((n, base, True))
@@ -434,7 +434,7 @@ def evolve(pkg: M.Package, rng: Rng, n: int, kinds) -> tuple:
 RECORD_EDITS = ["add_optional_field", "remove_optional_field", "reorder_fields", "add_field", "remove_field", "widen_field", "make_optional", "widen_vector_field", "make_required"]
 
 
-def with_versions(pkg: M.Package, rng: Rng, n_versions: int, partial: bool, must_edit=(), order="oldest_first", p_new_protocol=0.0, layout="siblings", widen_steps=(), widen_aliases=(), union_steps=(), to_union_steps=(), tail_records=(), fixed_vector_records=(), reorder_only=(), enum_bases=(), tail_p=0.6) -> M.Package:
+def with_versions(pkg: M.Package, rng: Rng, n_versions: int, partial: bool, must_edit=(), order="oldest_first", p_new_protocol=0.0, layout="siblings", widen_steps=(), widen_aliases=(), union_steps=(), to_union_steps=(), tail_records=(), fixed_vector_records=(), reorder_only=(), enum_bases=(), tail_p=0.6, add_stream_p=0.0) -> M.Package:
     """Treat pkg as the oldest version; evolve it n_versions times; the newest package lists all
     its predecessors under `versions:`.  Returns the newest package.
     must_edit: names of records that each get at least one record edit in every evolution step.
@@ -486,6 +486,12 @@ def with_versions(pkg: M.Package, rng: Rng, n_versions: int, partial: bool, must
         r10 = rng.fork("enumbase", i)
         if enum_bases and r10.chance(0.7):
             d = apply_edit(cur, r10, "widen_enum_base", only=tuple(enum_bases))
+            if d:
+                l.append(d)
+        r11 = rng.fork("addstream", i)
+        if add_stream_p and r11.chance(add_stream_p):
+            # a trailing stream step that the versions before this one do not have
+            d = apply_edit(cur, r11, "add_stream_step")
             if d:
                 l.append(d)
         r9 = rng.fork("reorderonly", i)
